@@ -182,6 +182,11 @@ def check(case):
     c = count(Yt, Yp)
     if np.ndim(c) != 0 or c != n:
         raise PropertyViolation(f"count = {c!r}, expected {n}")
+    # rows, not entries: labels with several entries per row (one-hot / multi-output) still have n rows
+    for k in (2, 3):
+        c2 = count(np.zeros((n, k), dtype=int), Yp)
+        if np.ndim(c2) != 0 or c2 != n:
+            raise PropertyViolation(f"count of an ({n}, {k}) label table = {c2!r}, expected the number of rows {n}")
     return tags
 
 
